@@ -290,6 +290,39 @@ func runC08(args []string) error {
 		}
 		return m
 	}
+	// ---- Pow: every base with a few dozen LARGE exponents (generic 32-bit values and large multiples of 65535 plus a
+	// small offset), compared with the independent square-and-multiply; mismatches are nominated as "pow" events
+	var mismPow int64
+	{
+		var pexps []uint32
+		for k := 0; k < 16; k++ {
+			pexps = append(pexps, rng.Uint32()|0x80000000)
+		}
+		for k := 0; k < 12; k++ {
+			pexps = append(pexps, uint32(40000+rng.Intn(25535))*65535+uint32(rng.Intn(7))-3)
+		}
+		pexps = append(pexps, 65535*65535+2, 65534*65535-1, 3122993826, 0xfffffffe, 0xffff0001)
+		var wgp sync.WaitGroup
+		for w := 0; w < nw; w++ {
+			wgp.Add(1)
+			go func(w int) {
+				defer wgp.Done()
+				for a := w; a < 65536; a += nw {
+					for _, pe := range pexps {
+						if uint16(gf2p16.T(a).Pow(pe)) != gfref.Pow16(uint16(a), uint64(pe)) {
+							if atomic.AddInt64(&mismPow, 1) <= cap {
+								mu.Lock()
+								lg.Emit(tracelog.M{"ev": "pow", "a": a, "hi": []int{int(pe >> 16)}, "lo": []int{int(pe & 0xFFFF)}, "r": []int{int(gf2p16.T(a).Pow(pe))}, "nominated": true})
+								mu.Unlock()
+							}
+						}
+					}
+				}
+			}(w)
+		}
+		wgp.Wait()
+		lg.Emit(tracelog.M{"ev": "sweep", "op": "pow_all_bases_large_exponents", "pairs_hi": 65536, "pairs_lo": len(pexps), "mismatches": mismPow, "nominated": nom(mismPow), "cap": cap})
+	}
 	lg.Emit(tracelog.M{"ev": "sweep", "op": "times_bilinear_closure", "pairs_hi": 65536, "pairs_lo": 65535, "mismatches": mism, "nominated": nom(mism), "cap": cap})
 	lg.Emit(tracelog.M{"ev": "sweep", "op": "div_is_times_inverse", "pairs_hi": 65536, "pairs_lo": 65535, "mismatches": mismDiv, "nominated": nom(mismDiv), "cap": cap})
 	return nil
